@@ -83,6 +83,26 @@ func c05xOracle(r *Rng, tier string, rep *Report) {
 			}
 		}
 	}
+	// (c) export default <expression> followed by a statement that could continue the expression if the ';' were lost
+	// (seed C05-6: ExportStmt.JS dropping the ';' after an arrow function)
+	defaults := []string{"a => b", "async a => b", "(a, b) => { return a }", "a", "f(a)", "a + b", "{a: 1}", "[a]", "`t`", "(function () {})", "(class {})", "a ? b : c", "new A", "a.b", "1"}
+	follow := []string{"(c)", "(c);", "[c]", "[c].d;", "`u`", "+c", "-c", "/r/.test(c)", ";", ";;", "c", "function g() {}", "export {c}"}
+	for _, d := range defaults {
+		for _, f := range follow {
+			for _, sep := range []string{";", ";\n", "\n;", ";\n\n"} {
+				src := "export default " + d + sep + f
+				for o := 0; o < 4; o += 2 { // the two non-Inline options (module code)
+					c05RoundTrip(rep, []byte(src), o, "export-default")
+				}
+			}
+		}
+	}
+	for _, pre := range []string{"export var v = a => b", "export const k = a => b", "export let l = () => {}", "var w = a => b", "x = a => b", "return_ = async () => {}"} {
+		for _, f := range follow {
+			c05RoundTrip(rep, []byte(pre+";"+f), 0, "arrow-then-statement")
+			c05RoundTrip(rep, []byte(pre+"\n;"+f), 0, "arrow-then-statement")
+		}
+	}
 }
 
 func init() {
